@@ -94,7 +94,8 @@ def gen_grouping(rng, n, kinds=('unique', 'groups', 'allsame'), allow_allsame=Tr
     if typ == 'str':
         labs = _str_labels(labs, uni=rng.chance(0.2))
     elif typ == 'float':
-        labs = [x + 0.5 for x in labs]
+        # fractional labels; sometimes onset-like values that are close to each other relative to their magnitude
+        labs = [1.7e9 + 2.5 * x for x in labs] if rng.chance(0.35) else [x + 0.5 for x in labs]
     return {'values': labs, 'container': cont, 'kind': kind, 'type': typ}
 
 
